@@ -323,6 +323,37 @@ def collapsed_ends_world():
     for i in range(5): w.add_read("t0_%d" % i, c, [pool[0], pool[1], pool[3]], "+")
     return w
 
+def mapq_world():
+    """filter_transcripts' MAPQ test of novel models with <= 2 exons AFTER re-assignment: two unannotated two-exon loci, each with 6 polyA-tailed full-length
+    reads of MAPQ 60 and mono-exonic polyA reads inside the last exon that are re-assigned to the model: 8 of MAPQ 5 (mean 28.6 < 30: the model must go, WITH its
+    rows in the read table) resp. 2 of MAPQ 5 (mean 46: the model stays and lists them); plus a three-exon control locus"""
+    from gen_data import World
+    w = World(14, n_chr=1, chr_len=(40000, 40000), genes_per_chr=(0, 0))
+    c = "chrA"; s = list(w.chroms[c]); w.chroms[c] = s
+    a = [(5001, 5300), (6001, 6400)]; b = [(10001, 10300), (11001, 11400)]; t = [(15001, 15300), (16001, 16200), (17001, 17300)]
+    w.plant(a, c, "+"); w.plant(b, c, "+"); w.plant(t, c, "+"); w.chroms[c] = "".join(s)
+    for i in range(6): w.add_read("flA_%d" % i, c, a, "+", mapq=60)
+    for i in range(8): w.add_read("lowA_%d" % i, c, [(6051, 6400)], "+", mapq=5)
+    for i in range(6): w.add_read("flB_%d" % i, c, b, "+", mapq=60)
+    for i in range(2): w.add_read("lowB_%d" % i, c, [(11051, 11400)], "+", mapq=5)
+    for i in range(12): w.add_read("ctl_%d" % i, c, t, "+", mapq=60)
+    return w
+
+def substituted_annotated_intron_world():
+    """nic/nnic with a collapsed ANNOTATED intron: gene chrA_G1 (+) with isoforms T0 = E1 E2 E3 and T1 = E2 E3 E4 E5; 10 reads use the unannotated donor 12 bp
+    inside E1's intron (beyond delta 6, within the clustering distance) and run E1' E2 E3 E4 E5, 2 reads use the annotated intron: the annotated intron is collapsed
+    into the unannotated one; the reported novel chain contains an unannotated intron and must be .nnic"""
+    from gen_data import World
+    w = World(15, n_chr=1, chr_len=(40000, 40000), genes_per_chr=(0, 0))
+    c = "chrA"; s = list(w.chroms[c]); w.chroms[c] = s
+    E1, E2, E3, E4, E5 = (5000, 5200), (6000, 6150), (7000, 7180), (8000, 8120), (9000, 9300)
+    pool = [E1, E2, E3, E4, E5]
+    g = dict(id="chrA_G1", chr=c, strand="+", pool=pool, isoforms={"chrA_G1.T0": [0, 1, 2], "chrA_G1.T1": [1, 2, 3, 4]}, start=5000, end=9300)
+    w.plant([E1, E2, E3], c, "+"); w.plant([E2, E3, E4, E5], c, "+"); w.plant([(5000, 5212), E2], c, "+"); w.chroms[c] = "".join(s); w.genes.append(g)
+    for i in range(10): w.add_read("sub_%d" % i, c, [(5000 + i, 5212), E2, E3, E4, (9000, 9300 - i % 3)], "+")
+    for i in range(2): w.add_read("ann_%d" % i, c, [(5000 + i, 5200), E2, E3, E4, E5], "+")
+    return w
+
 def dot_strand_world():
     """finding #13b: unannotated three-exon reads over non-canonical splice sites, without polyA tails"""
     from gen_data import World
@@ -390,6 +421,27 @@ def run_pipeline(ctx, quick, only=None):
         dinp = dict(bams=paths, fasta=os.path.join(wd, "genome.fa"), gtf=None, label="c04.dot_strand_world(): unannotated three-exon reads over non-canonical splice sites without polyA tails")
         job("corpus_dot_strand", dinp, False, ["--data_type", "nanopore", "--report_canonical", "all", "--polya_requirement", "never", "-t", "1"])
         job("corpus_dot_strand_default", dinp, False, ["--data_type", "nanopore", "--polya_requirement", "never", "-t", "1"])
+        # every preset WITHOUT --report_canonical: the level is the option's default (only_stranded), never `all`: a definite strand is required
+        for st, dt in DT.items():
+            job("corpus_dot_strand_preset_%s" % st, dinp, False, ["--data_type", dt, "--model_construction_strategy", st, "--polya_requirement", "never", "-t", "1"])
+        job("corpus_dot_strand_auto_all", dinp, False, ["--data_type", "nanopore", "--model_construction_strategy", "all", "--report_canonical", "auto", "--polya_requirement", "never", "-t", "1"])
+        w = mapq_world(); wd = os.path.join(d, "mapq"); paths = w.write(wd)
+        minp = dict(bams=paths, fasta=os.path.join(wd, "genome.fa"), gtf=None, label="c04.mapq_world(): two-exon novel loci whose mean MAPQ after re-assignment of mono-exonic MAPQ-5 reads is 28.6 resp. 46")
+        job("corpus_mapq", minp, False, ["--data_type", "nanopore", "-t", "1"])
+        job("corpus_mapq_unspliced", minp, False, ["--data_type", "nanopore", "--report_novel_unspliced", "true", "-t", "2"])
+        w = substituted_annotated_intron_world(); wd = os.path.join(d, "subann"); paths = w.write(wd)
+        job("corpus_substituted_annotated_intron", dict(bams=paths, fasta=os.path.join(wd, "genome.fa"), gtf=os.path.join(wd, "annotation.gtf"),
+                                                        label="c04.substituted_annotated_intron_world(): weakly covered annotated intron 5201-5999 collapsed into the well covered unannotated 5213-5999"), True,
+            ["--data_type", "nanopore", "-t", "1"])
+        # the seed scenario of the MAPQ filter on real data: two reads of a novel two-exon isoform of the bundled set get MAPQ 6
+        import pysam
+        lb = os.path.join(d, "bundled_lowmapq.bam")
+        with pysam.AlignmentFile(b["bam"]) as src, pysam.AlignmentFile(lb, "wb", template=src) as out:
+            for r_ in src:
+                if r_.query_name.startswith("ONT.910204.") or r_.query_name.startswith("ONT.1444184."): r_.mapping_quality = 6
+                out.write(r_)
+        pysam.index(lb)
+        job("bundled_lowmapq", dict(bams=[lb], fasta=b["fasta"], gtf=b["gtf"], label="bundled chr9.4M ONT with reads ONT.910204.* and ONT.1444184.* set to MAPQ 6"), True, ["--data_type", "nanopore", "-t", "2"])
         with ThreadPoolExecutor(min(NPROC, 12)) as ex: results = list(ex.map(traced_run, jobs))
         ctx.cov["pipeline_runs"] += len(results)
         analyse(ctx, results, quick)
@@ -406,8 +458,11 @@ def analyse(ctx, results, quick):
         if r["rc"] != 0:
             ctx.violation(None, "isoquant.py exits with %d" % r["rc"], dict(replay, log=r["log"][-1500:])); continue
         a = r["args"]
-        report_all = ("--report_canonical" in a and a[a.index("--report_canonical") + 1] == "all") or \
-                     ("--report_canonical" not in a and "--model_construction_strategy" in a and a[a.index("--model_construction_strategy") + 1] == "all")
+        # was the level `all` ASKED for?  --report_canonical all, or --report_canonical auto together with the preset `all`; the option's default is
+        # only_stranded (isoquant.py parse_args), so a preset alone never selects it
+        rc_opt = a[a.index("--report_canonical") + 1] if "--report_canonical" in a else None
+        preset = a[a.index("--model_construction_strategy") + 1] if "--model_construction_strategy" in a else None
+        report_all = rc_opt == "all" or (rc_opt == "auto" and preset == "all")
         for rec in r["recs"]:
             if rec.get("kind") != "region" or "raised" in rec or "graph" not in rec:
                 ctx.violation(None, "GraphBasedModelConstructor.process raised %s in a pipeline run (or the trace is garbled)" % rec.get("raised"), dict(replay, region=rec.get("region"))); continue
@@ -433,6 +488,14 @@ def analyse(ctx, results, quick):
         tc = Codes()
         tcases.append(("(%s, %s)" % (czs([-1 if t == "*" else tc(t) for t in o["table"]]), czs([tc(t) for t in o["gtf_tids"]])),
                        dict(replay, not_in_gtf=[t for t in o["table"] if t != "*" and t not in set(o["gtf_tids"])][:5], n_table=len(o["table"]), n_gtf=len(o["gtf_tids"]))))
+        if r["name"] == "corpus_substituted_annotated_intron":
+            hit = [m for m in o["novel"].values() if (5213, 5999) in [(x[1] + 1, y[0] - 1) for x, y in zip(m["exons"], m["exons"][1:])]]
+            collapsed = any(o_[0] == "Collapse" and tuple(o_[1]) == (5201, 5999) and tuple(o_[2]) == (5213, 5999) for rec in r["recs"] for o_ in (rec.get("graph") or {}).get("ops", []))
+            if not hit or not collapsed: ctx.broken("corpus:substituted_annotated_intron", "scenario not exercised: novel model through 5213-5999 reported=%s, annotated intron collapsed into it=%s" % (bool(hit), collapsed))
+        if r["name"] == "corpus_mapq":
+            dels = [e[1] for rec in r["recs"] for e in rec.get("store", []) if e[0] == "Del"]
+            kept = [m for m in o["novel"].values() if m["exons"] and m["exons"][0][0] == 10001]
+            if not dels or not kept or kept[0]["rows"] != 8: ctx.broken("corpus:mapq", "scenario not exercised: deletions in filter_transcripts=%s, the mean-46 model with its 8 rows=%s" % (dels, [(m["tid"], m["rows"]) for m in kept]))
         if r["name"] == "corpus_collapsed_ends":
             chains = [tuple((a[1] + 1, b[0] - 1) for a, b in zip(m["exons"], m["exons"][1:])) for m in o["novel"].values()]
             if (5701, 5900) not in [i for ch in chains for i in ch]: ctx.broken("corpus:collapsed_ends", "the novel four-exon chain of collapsed_ends_world() is not reported at all: the scenario is not exercised")
@@ -995,7 +1058,7 @@ def run(ctx, only=None):
     ctx.rule("pipeline: isoquant.py under harness/c04_wrapper.py (logging containers + bracketed mutators, behaviour unchanged) on the bundled chr9 data with each of the 8 --model_construction_strategy presets, "
              "without --genedb (default and `all` + --report_novel_unspliced), with --report_canonical all (with and without polyA requirement); on generated worlds (c04.make_world: gen_data.World with known / "
              "truncated / jittered reads, unannotated exon-skipping chains, alternative 3' ends, bulges, tips, an unannotated locus) with default_ont + 2 sampled presets (thorough: all 8), without --genedb, with "
-             "--report_canonical all with and without --genedb, 1-3 threads; on the two corpus worlds reproducing the by-design deviations, and on collapsed_ends_world (a four-exon novel chain with two polyA sites 600 bp apart that must come out as ONE model). Per processed region Coq checks that the logged mutator sequence "
+             "--report_canonical all with and without --genedb, 1-3 threads; on the two corpus worlds reproducing the by-design deviations, on collapsed_ends_world (a four-exon novel chain with two polyA sites 600 bp apart that must come out as ONE model), on the dot-strand world with every preset WITHOUT --report_canonical and with `--report_canonical auto` + preset all (the level `all` counts as asked for only with --report_canonical all, or auto together with the preset all; the option's default is only_stranded), on mapq_world (two-exon novel models whose mean MAPQ after re-assignment of mono-exonic MAPQ-5 reads is below / above the cut-off: the removed model must take its rows with it), on the bundled data with two reads of a novel two-exon isoform lowered to MAPQ 6, and on substituted_annotated_intron_world (a weakly covered annotated intron collapsed into a well covered unannotated neighbour: the model through it must be .nnic); each corpus run checks that its scenario was exercised. Per processed region Coq checks that the logged mutator sequence "
              "is a run of the abstract system from the collected read introns (every precondition, five snapshots, final vertex set / map / discarded set), that known_isoforms_in_graph and the intron part of every "
              "full-length path are the threaded images computed by the model, that every decision of construct_fl_isoforms is the one of `decide`, and that the logged store operations are a run of the store system "
              "ending in the logged read table. Per run and chromosome Coq evaluates novel_ok (Appendix E) on transcript_models.gtf, transcript_model_reads.tsv, corrected_reads.bed and the input GTF; non-trivial = "
